@@ -335,6 +335,31 @@ pub fn gen_string(d: &mut Dec, font: usize, max_len: u32, newlines: bool, crlf: 
             _ => s.push(chars[d.idx(chars.len())]),
         }
     }
+    // auxiliary words 5 and 6: one string in 64 continues with more than 255 characters in one line or,
+    // if line breaks are allowed, with more than 255 further lines of 0..=2 characters
+    if max_len >= 10 {
+        let mode = d.aux_u(6, 0, 127);
+        if mode >= 126 {
+            let mut x = d.aux_u(5, 0, u32::MAX) | 1;
+            let mut next = move || {
+                x ^= x << 13;
+                x ^= x >> 17;
+                x ^= x << 5;
+                x
+            };
+            let n = 256 + next() % 45;
+            for _ in 0..n {
+                if mode == 126 && newlines {
+                    s.push('\n');
+                    for _ in 0..next() % 3 {
+                        s.push(chars[next() as usize % chars.len()]);
+                    }
+                } else {
+                    s.push(chars[next() as usize % chars.len()]);
+                }
+            }
+        }
+    }
     s
 }
 
